@@ -117,6 +117,24 @@ Theorem C06_write_back_lands :
           nth_error (write_back ids hs) i = nth_error new_ids j)).
 Proof. exact write_back_lands. Qed.
 
+(** The boolean hypothesis checker run on every correspondence case ([hyps6_b], part of the
+    correspondence verdict) is sound: when it accepts the real merge result [hs] of a case,
+    the model returns the input ids on the materialization of [hs]; when it accepts an edited
+    hunk list, the model returns its write-back. *)
+Theorem C06_case_unchanged_sound :
+  forall (c : case) (hs : list (list (list N))),
+    c_mh c = inr hs -> hyps6_b c hs = true ->
+    update_from_content (case_MH c) (case_ids c) (materialize_of c hs) (N.to_nat (c_len c))
+    = case_ids c.
+Proof. exact case_unchanged_sound. Qed.
+
+Theorem C06_case_edit_sound :
+  forall (c : case) (hs hs' : list (list (list N))),
+    c_mh c = inr hs -> hyps6_b c hs' = true -> hs <> hs' ->
+    update_from_content (case_MH c) (case_ids c) (materialize_of c hs') (N.to_nat (c_len c))
+    = write_back (case_ids c) hs'.
+Proof. exact case_edit_sound. Qed.
+
 (** Meaning of the property checker evaluated on the implementation's outputs. *)
 Theorem C06_okb_spec : forall c : case, okb c = true <-> C06_ok c.
 Proof. exact okb_spec. Qed.
